@@ -104,7 +104,9 @@ func (c *Ctx) unqualifiedTypeRule() {
 	r := c.R
 	r.Rule("C01-3", "the result of (types.Type).String() / types.TypeString(t, nil) (which prints import paths) is only compared, logged, or – when it becomes emitted text – produced under a dominating test that the printed type is basic (IsBasicType / *types.Basic case)")
 	n := 0
-	for _, s := range c.Calls(func(n string) bool { return n == "(types.Type).String" || n == "go/types.TypeString" || strings.HasSuffix(n, "go/types.Basic).String") }) {
+	for _, s := range c.Calls(func(n string) bool {
+		return n == "(types.Type).String" || n == "go/types.TypeString" || strings.HasSuffix(n, "go/types.Basic).String")
+	}) {
 		if s.Callee == "go/types.TypeString" {
 			q := c.O.Of(s.Args()[1])
 			if !q.Is("const", "nil") {
@@ -205,7 +207,7 @@ func (c *Ctx) visibilityRules(rule string) {
 			isOwn := func(x *core.Term) bool { return x.IsField("packages.Package.PkgPath") }
 			return (isPath(a) && isOwn(b)) || (isPath(b) && isOwn(a))
 		}
-		same := func(l core.Lit) bool { return differs(core.Lit{V: l.V, Neg: !l.Neg}) }
+		same := func(l core.Lit) bool { return differs(core.Lit{V: l.V, Neg: !l.Neg, T: l.T}) }
 		isNil := c.M(true, isNilCmp(func(t *core.Term) bool { return t.Kind == "param" }))
 		r.Check(rule, FnKey(fn)+":true⇒path-differs", c.Pos(fn.Pos()), len(tr) > 0 && tr.Implies(differs), "a package is called external although its import path was not compared with the current package's path (comparing names confuses packages that share a name); true-condition: "+tr.Describe(c.O))
 		r.Check(rule, FnKey(fn)+":false⇒same-or-nil", c.Pos(fn.Pos()), len(fl) > 0 && fl.Implies(same, isNil), "a package with a different import path can be treated as the current package; false-condition: "+fl.Describe(c.O))
@@ -215,7 +217,9 @@ func (c *Ctx) visibilityRules(rule string) {
 		tr := rc.RetCond(0, true)
 		leaf := "param:" + fn.Params[len(fn.Params)-1].Name()
 		structNode := "param:" + fn.Params[1].Name()
-		isStruct := c.M(true, func(t *core.Term) bool { return t.IsCallTo(fnIsStruct) && t.Contains(func(s *core.Term) bool { return s.String() == structNode }) })
+		isStruct := c.M(true, func(t *core.Term) bool {
+			return t.IsCallTo(fnIsStruct) && t.Contains(func(s *core.Term) bool { return s.String() == structNode })
+		})
 		local := c.M(false, func(t *core.Term) bool {
 			return t.IsCallTo(fnIsExternalPkg) && t.Args[1].Contains(func(s *core.Term) bool { return s.String() == structNode })
 		})
@@ -277,7 +281,7 @@ func (c *Ctx) visibilityRules(rule string) {
 		r.Check(rule, key+":visible", c.Pos(s.Pos()), d.Implies(notExternal, exported),
 			"a source-path step can use an unexported member of an imported type (external must be computed from the package of the type the member was looked up in, on every step); reach: "+d.Describe(c.O))
 	}
-	r.Floor(rule, "resolver node constructions", n, 4)
+	r.Floor(rule, "resolver node constructions", n, 2) // one getter and one field construction at least (the two resolvers may share one path walker)
 }
 
 // typecastPointerRule (C01-8): conversions to pointer types are rendered parenthesised.
